@@ -280,6 +280,9 @@ func runTplCase(c *Ctx, ast []*tnode, src string, vars map[string]string, label 
 	}
 	if c.Prop == "C10" {
 		reuseTpl(c, tplStep{src, vars}, impl)
+		if c.Evals%2 == 0 {
+			checkTplEntryPoints(c, src, vars, impl)
+		}
 	}
 	if ast != nil {
 		if o.code != "" || o.rcode != "" {
@@ -406,7 +409,7 @@ func propC10(c *Ctx) {
 }
 
 func replayTpl(c *Ctx, op string) {
-	if replaySeq(c, op) {
+	if replaySeq(c, op) || replayEntry(c, op) {
 		return
 	}
 	f := strings.Fields(op)
